@@ -821,4 +821,154 @@ theorem decoders_fit {a : Ast} {m : Module} (hs : Supported a = true) (hp : para
     simp only [this, beq_self_eq_true, Bool.true_and]
     exact emitTypedef_fits C td hok hself fd hfd
 
+/-! ### every type expression of every emitted declaration resolves -/
+
+theorem elemTy_wellFormed {a : Ast} {m : Module} (C : FitsCtx a m) (t : BasicType) (hd : basicDeclared a t = true)
+    (ho : t ≠ .opaque) (hs : t ≠ .string) : (elemTy a t).wellFormed m = true := by
+  cases t with
+  | «opaque» => exact absurd rfl ho
+  | string => exact absurd rfl hs
+  | ident c =>
+    simp only [basicDeclared] at hd
+    obtain ⟨d, hdd, hg⟩ := C.decl c hd
+    simp only [elemTy, C.safe c hd]
+    cases hgen : a.isGeneric c <;> simp [TyExpr.wellFormed, hdd, hg, hgen]
+  | u32 | u64 | i32 | i64 | f32 | f64 | bool => simp [elemTy, TyExpr.wellFormed, primNames, BasicType.asSafeString, BasicType.asStr]
+
+theorem payloadTy_wellFormed {a : Ast} {m : Module} (C : FitsCtx a m) (at_ : ArrayType) (h : declaratorOk a at_ = true) :
+    (payloadTy a at_).wellFormed m = true := by
+  match at_, h with
+  | .none t, h =>
+    cases t with
+    | «opaque» => simp [declaratorOk] at h
+    | string => rfl
+    | ident c =>
+      simp only [declaratorOk] at h
+      rw [payloadTy_none a (.ident c) (by simp) (by simp)]
+      exact elemTy_wellFormed C (.ident c) h (by simp) (by simp)
+    | u32 | u64 | i32 | i64 | f32 | f64 | bool => simp [payloadTy, ArrayType.unwrapArray, TyExpr.wellFormed, primNames, BasicType.asSafeString, BasicType.asStr]
+  | .fixed t sz, h =>
+    cases t with
+    | «opaque» => rfl
+    | string => simp [declaratorOk] at h
+    | ident c =>
+      simp only [declaratorOk, Bool.and_eq_true] at h
+      rw [payloadTy_fixed a (.ident c) sz (by simp) (by simp)]
+      simp only [TyExpr.wellFormed]
+      exact elemTy_wellFormed C (.ident c) h.1 (by simp) (by simp)
+    | u32 | u64 | i32 | i64 | f32 | f64 | bool =>
+      rw [payloadTy_fixed a _ sz (by simp) (by simp)]
+      simp only [TyExpr.wellFormed]
+      exact elemTy_wellFormed C _ rfl (by simp) (by simp)
+  | .variable t mx, h =>
+    cases t with
+    | «opaque» => rfl
+    | string => rfl
+    | ident c =>
+      simp only [declaratorOk, Bool.and_eq_true] at h
+      rw [payloadTy_variable_ident]
+      simp only [TyExpr.wellFormed]
+      exact elemTy_wellFormed C (.ident c) h.1 (by simp) (by simp)
+    | u32 | u64 | i32 | i64 | f32 | f64 | bool => simp [declaratorOk] at h
+
+/-- what `declOk` asks of the *types* written in one declaration: every named type resolves to a declaration of the module, with
+    a parameter list exactly when that declaration has one -/
+def declTypesResolve (m : Module) : TypeDecl → Bool
+  | .struct _ _ fs => fs.all fun f => f.2.wellFormed m
+  | .union _ _ vs => vs.all fun v => match v.2 with | some t => t.wellFormed m | none => true
+  | .typedef _ _ _ inner => inner.wellFormed m
+  | _ => true
+
+theorem decls_resolve {a : Ast} {m : Module} (hs : Supported a = true) (hp : paramsOk a = true) (hg : generateModule a = .ok m) :
+    m.types.all (declTypesResolve m) = true := by
+  have C := fitsCtx_of_supported hs hp hg
+  obtain ⟨_, htypes, _, _, _⟩ := Supported.facts hs
+  rw [C.types_eq, List.all_eq_true]
+  intro d hd
+  simp only [emitTypes, List.mem_append, List.mem_filterMap] at hd
+  rcases hd with ⟨kv, _, hkv⟩ | ⟨kv, hkvm, hkv⟩
+  · obtain ⟨k, c⟩ := kv
+    cases c <;> simp only at hkv <;> cases hkv
+    rfl
+  · have hok : typeOk a kv.2 = true := (List.all_eq_true.mp htypes) kv hkvm
+    obtain ⟨k, ty⟩ := kv
+    cases ty with
+    | struct s =>
+      simp only [emitTypeDecl] at hkv; cases hkv
+      simp only [typeOk, Bool.and_eq_true] at hok
+      simp only [declTypesResolve, List.all_map, List.all_eq_true, Function.comp]
+      intro f hf
+      have hfo := (List.all_eq_true.mp hok.2) f hf
+      simp only [fieldOk, Bool.and_eq_true] at hfo
+      by_cases hopt : f.isOptional = true
+      · simp only [hopt, if_true] at hfo ⊢
+        have h2 := hfo.2
+        split at h2
+        · rename_i n hfv
+          rw [hfv, payloadTy_none a (.ident n) (by simp) (by simp)]
+          simp only [TyExpr.wellFormed]
+          exact elemTy_wellFormed C (.ident n) h2 (by simp) (by simp)
+        · cases h2
+      · simp only [hopt, Bool.false_eq_true, if_false] at hfo ⊢
+        exact payloadTy_wellFormed C f.fieldValue hfo.2
+    | union u =>
+      simp only [emitTypeDecl] at hkv; cases hkv
+      simp only [typeOk, unionOk, Bool.and_eq_true] at hok
+      obtain ⟨⟨⟨⟨⟨_, hcases⟩, hdef⟩, _⟩, _⟩, _⟩ := hok
+      have harm : ∀ fv, armTypeOk a fv = true → (armTy a fv).wellFormed m = true := by
+        intro fv hfv
+        rcases fv with t | ⟨t, sz⟩ | ⟨t, mx⟩
+        · have hdecl : declaratorOk a (.none t) = true ∧ basicDeclared a t = true := by
+            cases t <;> simp only [armTypeOk, declaratorOk, basicDeclared] at hfv ⊢ <;> first | exact ⟨hfv, hfv⟩ | exact ⟨rfl, rfl⟩ | cases hfv
+          rw [armTy_none C t hdecl.2]
+          exact payloadTy_wellFormed C (.none t) hdecl.1
+        · simp [armTypeOk] at hfv
+        · simp [armTypeOk] at hfv
+      simp only [declTypesResolve, List.all_append, Bool.and_eq_true, List.all_eq_true]
+      refine ⟨⟨?_, ?_⟩, ?_⟩
+      · intro v hv
+        obtain ⟨l, hl, hvl⟩ := List.mem_flatten.mp hv
+        obtain ⟨c, hc, rfl⟩ := List.mem_map.mp hl
+        obtain ⟨lab, _, rfl⟩ := List.mem_map.mp hvl
+        have := (List.all_eq_true.mp hcases) c hc
+        simp only [Bool.and_eq_true] at this
+        exact harm _ this.1
+      · intro v hv
+        obtain ⟨lab, _, rfl⟩ := List.mem_map.mp hv
+        rfl
+      · intro v hv
+        cases hdd : u.default with
+        | none => simp [hdd] at hv
+        | some d =>
+          simp only [hdd, List.mem_singleton] at hv hdef
+          subst hv
+          simp only [Bool.and_eq_true] at hdef
+          exact harm _ hdef.1.1
+    | enum e => simp only [emitTypeDecl] at hkv; cases hkv; rfl
+    | typedef td =>
+      simp only [typeOk] at hok
+      obtain ⟨sp, hdcl⟩ := emitTypeDecl_typedef (a := a) hok
+      rw [hdcl] at hkv; cases hkv
+      simp only [declTypesResolve, typedefInner, targetTy_eq_elemTy]
+      obtain ⟨target, alias⟩ := td
+      simp only [typedefOk, Bool.and_eq_true] at hok
+      have hrest := hok.2
+      cases target with
+      | «opaque» => simp [BasicType.isOpaque, TyExpr.wellFormed]
+      | string => cases alias <;> simp at hrest
+      | ident tn =>
+        simp only [BasicType.isOpaque, Bool.false_eq_true, if_false]
+        have hdt : declared a tn = true := by
+          rcases alias with t | ⟨t, sz⟩ | ⟨t, mx⟩
+          · simpa using hrest
+          · simp only [Bool.and_eq_true] at hrest; exact hrest.1
+          · cases mx <;> simp [Bool.and_eq_true] at hrest <;> first | exact hrest | exact hrest.1
+        have hw := elemTy_wellFormed C (.ident tn) hdt (by simp) (by simp)
+        cases alias <;> simpa [TyExpr.wellFormed] using hw
+      | u32 | u64 | i32 | i64 | f32 | f64 | bool =>
+        rcases alias with t | ⟨t, sz⟩ | ⟨t, mx⟩
+        · simp [BasicType.isOpaque, elemTy, TyExpr.wellFormed, primNames, BasicType.asSafeString, BasicType.asStr]
+        · simp at hrest
+        · cases mx <;> simp at hrest
+
 end Fx
